@@ -21,7 +21,7 @@ type WriterOpts struct {
 	WriteBuf        int               `json:"writebuf,omitempty"` // -1 → WriteBufferSize(0); >0 → that size
 	Codec           string            `json:"codec,omitempty"`
 	DictMax         int64             `json:"dictmax,omitempty"`
-	DefaultEnc      map[string]string `json:"defenc,omitempty"` // physical type name → encoding name
+	DefaultEnc      map[string]string `json:"defenc,omitempty"`    // physical type name → encoding name
 	PageStats       int               `json:"pagestats,omitempty"` // 1 on, 2 off
 	DeprecatedStats bool              `json:"depstats,omitempty"`
 	SkipBounds      []int             `json:"skipbounds,omitempty"`
